@@ -57,7 +57,7 @@ PROPS = {
     "C11": dict(families=["elem", "range", "clone", "views"], keys=["out", "ret", "len", "cap", "snap", "ev_alloc"],
                 cfgs=is_stack, release=False, leak_free=True),
     "C12": dict(families=["views", "placement"], keys=["out", "ret", "len", "snap"], cfgs=any_cfg, release=False, leak_free=True),
-    "C14": dict(families=["iter", "iter_clone", "iter_nth"], keys=["out", "ret"], cfgs=any_cfg, release=False, leak_free=True),
+    "C14": dict(families=["iter", "iter_clone", "iter_nth", "cursor_max"], keys=["out", "ret"], cfgs=any_cfg, release=False, leak_free=True),
     "C18": dict(families=["capacity", "elem", "range", "clone", "parts", "random"], keys=["out", "cap", "ev_alloc"],
                 cfgs=is_heap, release=True, leak_free=True),
     # the harness is linked against any_vec built with default features disabled; the same cases also run
